@@ -145,3 +145,10 @@ Lemma tab_directive_refuted :
   both [("r", ["--index-url" ++ tab ++ "http://x/simple"])] "r" =
   (FOk (mkRepos ["http://x/simple"] [] [] false), FOk (mkRepos [tab ++ "http://x/simple"] [] [] false)).
 Proof. vm_compute. reflexivity. Qed.
+
+(* an option line is a small command line; the Bazel scanner takes the rest of the line as the value *)
+Lemma multi_option_line_refuted :
+  both [("r", ["--index-url http://a/s --extra-index-url http://b/s"])] "r" =
+  (FOk (mkRepos ["http://a/s"] ["http://b/s"] [] false),
+   FOk (mkRepos ["http://a/s --extra-index-url http://b/s"] [] [] false)).
+Proof. vm_compute. reflexivity. Qed.
